@@ -154,6 +154,20 @@ CHECKS["C20"] = dict(engine="E2", cat="model_checking", design="4/C20",
                      note="only the first entry of a merged time point is judged; a Delay tag left in a shifted process' "
                           "text is ignored; durations on a 0.5 s grid")
 
+CHECKS["C17"] = dict(engine="E1+E2", cat="model_checking", design="4/C17",
+                     technique="exhaustive enumeration of parameter sets x small tables against reference semantics; "
+                               "explicit-state exploration of operation lists and dispatcher histories (differential: fresh "
+                               "vs. used dispatcher)",
+                     text="45 parameter sets generated from the JSON specifications of the eight operations (every flag "
+                          "setting, optional parameters present/absent) x 246 tables of <= 3 rows (text, numeric, n/a, "
+                          "duplicates) are run through Dispatcher on TSV files and compared with reference semantics; all "
+                          "ordered pairs (thorough: triples) of sets are composed; every sequence of <= 3 tables through one "
+                          "dispatcher must give each table the result a fresh dispatcher gives; input frame and parameter "
+                          "dictionaries are compared before/after; every single-fault mutation of every specification must be "
+                          "reported by the validator and, through run_remodel.main, leave the data files untouched.",
+                     note="reference semantics from docstrings / PARAMS descriptions; arithmetic judged only on numeric "
+                          "onset/duration cells; compositions after remap_columns(integer_sources) judged for purity only")
+
 PENDING_REASON = "check not built yet in this revision (planned in DESIGN.md section 4); not claimed until it is"
 
 
